@@ -759,6 +759,16 @@ class _WState(object):
         raise Undecided('unmodelled written value: %s' % norm(e)[:80], e)
 
 
+def _count_of_iter(it, subst, stream):
+    """number of iterations of `for _ in <it>` as text, or None: range(n) -> n; any other iterable that does not touch the
+    stream -> len(<it>)"""
+    if isinstance(it, ast.Call) and norm(it.func) == 'range' and len(it.args) == 1:
+        return norm(subst(it.args[0]))
+    if isinstance(it, (ast.Name, ast.Attribute)) and not _touches(it, stream):
+        return 'len(%s)' % norm(subst(it))
+    return None
+
+
 class _RState(object):
     def __init__(self, eng, fi, stream, env, ctxcls, depth):
         self.eng = eng
@@ -865,9 +875,12 @@ class _RState(object):
             if not any(_touches(x, self.stream) for x in s.body):
                 return []
             it = s.iter
-            if isinstance(it, ast.Call) and norm(it.func) == 'range' and len(it.args) == 1:
+            cnt = _count_of_iter(it, self.subst, self.stream)
+            is_range = isinstance(it, ast.Call) and norm(it.func) == 'range'
+            if cnt is not None and (is_range or not any(isinstance(x, ast.Name) and isinstance(x.ctx, ast.Load) and x.id in {t.id for t in ast.walk(s.target) if isinstance(t, ast.Name)}
+                                           for b_ in s.body for x in ast.walk(b_))):
                 body = self.block(s.body)
-                return [Item('loop', count=norm(self.subst(it.args[0])), body=body, node=s)]
+                return [Item('loop', count=cnt, body=body, node=s)]
             raise Undecided('unmodelled reader loop', s)
         if isinstance(s, ast.While) and _touches(s, self.stream):
             # while len(acc) < n: acc.append(<read>)   ==   for _ in range(n): acc.append(<read>)   (acc starts empty)
@@ -990,17 +1003,28 @@ class _RState(object):
                 raise Undecided('indexing a ser_read result', s)
         if isinstance(e, (ast.ListComp, ast.GeneratorExp)) and len(e.generators) == 1 and not e.generators[0].ifs:
             it = e.generators[0].iter
-            if isinstance(it, ast.Call) and norm(it.func) == 'range' and len(it.args) == 1:
+            cnt = _count_of_iter(it, self.subst, self.stream)
+            if cnt is not None:
                 inner = self.read_expr(e.elt, s)
                 if inner is None:
                     raise Undecided('comprehension without a read', s)
                 for i in inner:
                     if i.get('var') == '$':
                         i.var = '$[]'
-                return [Item('loop', count=norm(self.subst(it.args[0])), body=inner, var='$', node=e)]
+                return [Item('loop', count=cnt, body=inner, var='$', node=e)]
             raise Undecided('unmodelled comprehension read', s)
         if isinstance(e, ast.Call):
             n = eng.is_ser_read(e, fi, self.stream)
+            if n is not None and _touches(n, self.stream):
+                # ser_read(f, <length read from the stream>): the length is read first, then that many bytes
+                inner = self.read_expr(n, s)
+                if inner is not None:
+                    self._tmp = getattr(self, '_tmp', 0) + 1
+                    ln = '_length%d' % self._tmp
+                    for i in inner:
+                        if i.get('var') == '$':
+                            i.var = ln
+                    return inner + [Item('raw', n=None, nexpr=ln, var='$', node=e)]
             if n is not None:
                 nv = self.f(n)
                 if isinstance(nv, int):
@@ -1016,14 +1040,15 @@ class _RState(object):
                         g = e.args[0]
                         if len(g.generators) == 1 and not g.generators[0].ifs:
                             it = g.generators[0].iter
-                            if isinstance(it, ast.Call) and norm(it.func) == 'range' and len(it.args) == 1:
+                            cnt = _count_of_iter(it, self.subst, self.stream)
+                            if cnt is not None:
                                 inner = self.read_expr(g.elt, s)
                                 if inner is None:
                                     raise Undecided('generator without a read', s)
                                 for i in inner:
                                     if i.get('var') == '$':
                                         i.var = '$[]'
-                                return [Item('loop', count=norm(self.subst(it.args[0])), body=inner, var='$', node=e)]
+                                return [Item('loop', count=cnt, body=inner, var='$', node=e)]
                         raise Undecided('unmodelled generator read', s)
                     inner = self.read_expr(e.args[0], s)
                     if inner is not None:
